@@ -236,9 +236,11 @@ def check_C12(tier, seed):
     scripts += [scen.recovery_script(r, len(scripts) + i) for i in range(n_rand)]
     mcs = [("Recovery.tla", "MC_Recovery4.cfg" if quick else "MC_Recovery.cfg")]
     mcs.append(("Controllers.tla", "MC_Controllers.cfg"))
+    # acknowledgement generation (what loss detection feeds on): extension of the recovery specification
+    mcs.append(("Ack.tla", "MC_Ack.cfg"))
     ccv, cccov = cc_stage(tier, seed, r)
     res = generic("C12", tier, seed, mcs, scripts,
-                   [("recovery", "RecoveryTrace.tla", "RecoveryTrace.cfg")],
+                   [("recovery", "RecoveryTrace.tla", "RecoveryTrace.cfg"), ("acks", "AckTrace.tla", "AckTrace.cfg")],
                    ["outstanding packets and in-flight counters are read through the verif-hooks probe before and after every call",
                     "exemptions from the gate are recognised from the independent decoder's frame list (CONNECTION_CLOSE, PATH_CHALLENGE/RESPONSE, padded PING larger than the current MTU) and from the probe's loss_probes budget",
                     "a run counts as clean when no datagram was dropped, duplicated, delayed, corrupted or injected and latency is constant"],
@@ -389,7 +391,8 @@ def replay_C05(scripts):
 
 
 def replay_C12(scripts):
-    return generic("C12", "quick", 0, [], scripts, [("recovery", "RecoveryTrace.tla", "RecoveryTrace.cfg")], [], shards=1, probe=2)
+    return generic("C12", "quick", 0, [], scripts, [("recovery", "RecoveryTrace.tla", "RecoveryTrace.cfg"),
+                                                     ("acks", "AckTrace.tla", "AckTrace.cfg")], [], shards=1, probe=2)
 
 
 def replay_C11(scripts):
